@@ -15,6 +15,8 @@ type Ctx struct {
 	V   *Vocab
 	R   *Report
 	Opt Options
+
+	reqDepth int
 }
 
 // fnOrUnresolved fetches a function by key and records an unresolved anchor when missing.
@@ -49,6 +51,33 @@ func WithClosures(fn *ssa.Function) []*ssa.Function {
 	out := []*ssa.Function{fn}
 	for i := 0; i < len(out); i++ {
 		out = append(out, out[i].AnonFuncs...)
+	}
+	return out
+}
+
+// OpFuncs returns the functions whose bodies make up an operation: the operation, its closures and -
+// transitively - the module helpers it calls that do not exist on the reference tree (code that was moved
+// out of the operation, or out of a closure of it, into a new function keeps being examined in place;
+// conditions may be established inside such a helper or before each of its calls, see RequireAt).
+func (c *Ctx) OpFuncs(op *ssa.Function) []*ssa.Function {
+	out := WithClosures(op)
+	seen := map[*ssa.Function]bool{}
+	for _, f := range out {
+		seen[f] = true
+	}
+	for i := 0; i < len(out) && len(out) < 64; i++ {
+		for _, ci := range Calls(out[i]) {
+			f := ci.Common().StaticCallee()
+			if f == nil || seen[f] || f.Parent() != nil || !c.moduleFn(f) || !c.P.IsNewFunc(f) {
+				continue
+			}
+			for _, g := range WithClosures(f) {
+				if !seen[g] {
+					seen[g] = true
+					out = append(out, g)
+				}
+			}
+		}
 	}
 	return out
 }
@@ -88,12 +117,20 @@ func (c *Ctx) Effects(op *ssa.Function, pred func(d *CallDesc) bool) []EffectSit
 		memo[f] = res
 		return res
 	}
-	for _, g := range WithClosures(op) {
+	part := c.OpFuncs(op)
+	isPart := map[*ssa.Function]bool{}
+	for _, g := range part {
+		isPart[g] = true
+	}
+	for _, g := range part {
 		for _, ci := range Calls(g) {
 			d := c.P.Describe(ci)
 			if pred(d) {
 				out = append(out, EffectSite{Instr: ci, Direct: true, Inner: ci})
 				continue
+			}
+			if d.Static != nil && isPart[d.Static] {
+				continue // a helper that is new on this tree: its body is examined as part of the operation
 			}
 			if d.Static != nil && c.moduleFn(d.Static) && d.Static.Parent() == nil && d.Static != op {
 				for _, in := range inner(d.Static, 1) {
@@ -141,6 +178,25 @@ func (c *Ctx) RequireAt(instr ssa.Instruction, cond *Cond) (bool, string) {
 				return true, ""
 			}
 			return false, why + " ; and before the closure: " + w2
+		}
+	}
+	// a helper that is new on this tree: the condition may hold inside it once its parameters are read in
+	// the calling context, or before the call - at every call site
+	if fn.Parent() == nil && c.P.IsNewFunc(fn) {
+		sites := c.callersOf(fn)
+		if len(sites) > 0 && c.reqDepth < 4 {
+			c.reqDepth++
+			defer func() { c.reqDepth-- }()
+			for _, s := range sites {
+				co := c.P.OriginsOf(s.Parent()).Enter(fn, s)
+				if ok2, _ := co.Requires(instr, cond); ok2 {
+					continue
+				}
+				if ok2, w := c.RequireAt(s, cond); !ok2 {
+					return false, why + " ; and before the call of the new helper at " + c.P.InstrPos(s) + ": " + w
+				}
+			}
+			return true, ""
 		}
 	}
 	return false, why
